@@ -20,11 +20,14 @@ ASSUMPTIONS = [
     "real trial parameters, complex walkers, symmetric h1 and Cholesky matrices",
     "cisd/cisd_faster/ucisd contract in complex64/float32 by design: tolerance 2e-4 S",
     "AD kinds use central finite differences (eps = 1e-4 default): tolerance 1e-5 S plus measured quadratic convergence in eps",
-    "restricted entry points are driven with spin-independent h1 (the statement's quantifier)",
+    "restricted entry points of rhf / restricted CI / AD kinds are also driven with spin-dependent h1 and judged against H built from the spin average (what the statement says they see); "
+    "restricted entry points of uhf / ghf / noci / hand-coded ucisd are driven with spin-independent h1 only",
 ]
 REQUIRED_COUNTERS = {"energy_u": 40, "energy_r": 30, "batched": 10, "ladder": 4, "rebuild": 20}
 FLOAT32_KINDS = ("cisd", "cisd_faster", "ucisd")
 AD_KINDS = ("multislater",) + trials.AD_CI
+# kinds whose restricted-walker entry point is defined with the spin-averaged one-body matrix
+AVG_KINDS = ("rhf", "CISD", "CISD_THC", "cisd", "cisd_faster", "multislater", "UCISD", "GCISD")
 
 
 def gen_cases(tier, seed):
@@ -99,8 +102,15 @@ def run_case(case):
         entries.append("r")
     for entry in entries:
         h0, h1, chol = measure.build_ham(rng, norb, case["nchol"], kind, entry)
+        if entry == "r" and kind in AVG_KINDS and case["rep"] % 2 == 1:
+            # restricted entry points of these kinds see only the spin average of the one-body matrices
+            h0, h1, chol = trials.rand_ham(rng, norb, case["nchol"], spin_dep=True)
         hd = measure.intermediates(t, h0, h1, chol)
-        H = F.hamiltonian(h0, h1[0], h1[1], chol)
+        if entry == "r" and kind in AVG_KINDS:
+            hav = (h1[0] + h1[1]) / 2
+            H = F.hamiltonian(h0, hav, hav, chol)
+        else:
+            H = F.hamiltonian(h0, h1[0], h1[1], chol)
         S = measure.ham_scale(h0, h1, chol)
         tol = _tol(kind, S)
         ws, refs = [], []
